@@ -269,6 +269,25 @@ def return_chains(max_arms=4):
                     yield k + 1, prog, inputs, "%s/%s" % (spelling, place)
 
 
+def typed_chains(max_arms=3):
+    """If/ElseIf chains (builder syntax) with EVERY assignment of {statement, uint64 value} to the arms and
+    {no Else, statement Else, value Else}: most of them are ill-typed and must be refused; whatever is accepted
+    must keep the stack discipline.  Used as the value (Pop(chain)) when any arm is a value, else as a statement.
+    yields (size, program recipe, inputs, label)"""
+    import itertools
+    for k in range(1, max_arms + 1):
+        conds = [["Eq", ["Btoi", ["Arg", 0]], ["Int", i]] for i in range(k)]
+        inputs = [{"args": [bytes([i]), b""]} for i in range(k + 2)]
+        for kinds in itertools.product("nu", repeat=k):
+            for els in (None, "n", "u"):
+                arms = [["TickS", i + 1] if kd == "n" else ["Int", 5 + i] for i, kd in enumerate(kinds)]
+                else_ = None if els is None else (["TickS", 7] if els == "n" else ["Int", 9])
+                chain = ["IfChain", [[conds[i], arms[i]] for i in range(k)], else_]
+                valued = "u" in kinds or els == "u"
+                main = ["Seq", ["Pop", chain] if valued else chain, ["Int", 1]]
+                yield k + 1, {"mode": "A", "vars": {}, "subs": {}, "main": main}, inputs, "chain-%s-%s" % ("".join(kinds), els)
+
+
 def has_dead_code(body):
     """a statement follows Return/Approve/Reject/Break/Continue/Err in the same sequence"""
     for idx, s in enumerate(body):
